@@ -106,13 +106,6 @@ func c20Versions(p *Prog, r *Report) {
 	})
 	run := func(label string) (string, bool, bool) {
 		s := newSim(p)
-		s.Model = func(sm *Sim, st *State, call ssa.CallInstruction, callee *ssa.Function) []*State {
-			if callIsFunc(call, "strings", "ToLower") || callIsFunc(call, "strings", "ToUpper") {
-				SetCallResult(st, call, AV{K: avConst, C: constant.MakeString(label)})
-				return []*State{st}
-			}
-			return nil
-		}
 		init := newState()
 		init.vals[pv.Params[0]] = AV{K: avConst, C: constant.MakeString(label)}
 		outs := s.Run(pv, init)
@@ -131,8 +124,21 @@ func c20Versions(p *Prog, r *Report) {
 		return name, okv, known
 	}
 	var bad []string
-	if !lowerCalled {
-		bad = append(bad, "the option value is not lower-cased before it is compared (\"DSEv1\" as documented would be refused)")
+	_ = lowerCalled
+	// letter case: the documented forms are mixed case (DSEv1), and any case selects the same version
+	for l, w := range want {
+		for _, form := range []string{strings.ToUpper(l), strings.Replace(strings.Replace(l, "dsev", "DSEv", 1), "v", "V", 0)} {
+			if form == l {
+				continue
+			}
+			got, okv, known := run(form)
+			if !known {
+				fatalf("rule %s: what parseProtocolVersion returns for %q could not be determined", rule, form)
+			}
+			if !okv || got != w {
+				bad = append(bad, fmt.Sprintf("%q selects %s (accepted=%v), documented %s: the option value is not compared case-insensitively", form, got, okv, w))
+			}
+		}
 	}
 	for _, l := range labels {
 		if l != strings.ToLower(l) {
@@ -140,11 +146,24 @@ func c20Versions(p *Prog, r *Report) {
 		}
 	}
 	seen := map[string]string{}
+	// every documented spelling is evaluated, whether or not the function spells it out as a constant
+	// (it may parse the number instead)
+	for l := range want {
+		have := false
+		for _, x := range labels {
+			if x == l {
+				have = true
+			}
+		}
+		if !have {
+			labels = append(labels, l)
+		}
+	}
+	sort.Strings(labels)
 	for _, l := range labels {
 		got, okv, known := run(l)
 		if !known {
-			bad = append(bad, fmt.Sprintf("%q: result not determined", l))
-			continue
+			fatalf("rule %s: what parseProtocolVersion returns for %q could not be determined (an operation on the name that the analysis does not evaluate)", rule, l)
 		}
 		w, documented := want[l]
 		switch {
@@ -176,9 +195,14 @@ func c20Versions(p *Prog, r *Report) {
 		}
 	}
 	// an unknown name is refused
-	for _, l := range []string{"", "v6", "2", "v2", "dsev3", "latest"} {
-		if _, okv, known := run(l); !known || okv {
-			bad = append(bad, fmt.Sprintf("unknown version name %q is not refused", l))
+	// (numbers that equal a version modulo 256 included: the version is a byte)
+	for _, l := range []string{"", "v6", "2", "v2", "dsev3", "latest", "259", "260", "v260", "261", "321", "322", "-252", "0x4"} {
+		got, okv, known := run(l)
+		if !known {
+			fatalf("rule %s: what parseProtocolVersion returns for %q could not be determined", rule, l)
+		}
+		if okv {
+			bad = append(bad, fmt.Sprintf("unknown version name %q is not refused (it selects %s)", l, got))
 		}
 	}
 	r.check(len(bad) == 0, rule, "proxy.parseProtocolVersion", p.Pos(pv.Pos()), fmt.Sprintf("%d labels folded", len(labels)), strings.Join(dedupe(bad), " || "))
@@ -429,7 +453,9 @@ func c20Run(p *Prog, r *Report) {
 	for _, c := range [][3]int64{{30, 60, 0}, {59, 60, 0}, {60, 60, 1}, {61, 60, 1}, {90, 30, 1}} {
 		c := c
 		cells = append(cells, runCell{name: fmt.Sprintf("heartbeat=%ds idle=%ds", c[0], c[1]), reject: c[2] == 1, versions: [2]string{"ProtocolVersion4", "ProtocolVersion4"},
-			bind: func(st *State, s *Sim) { st.cells[hbF], st.cells[idleF], st.cells[ncF] = dur(c[0]), dur(c[1]), avInt(1) }})
+			bind: func(st *State, s *Sim) {
+				st.cells[hbF], st.cells[idleF], st.cells[ncF] = dur(c[0]), dur(c[1]), avInt(1)
+			}})
 	}
 	for _, n := range []int64{-1, 0, 1, 2} {
 		n := n
@@ -690,6 +716,10 @@ func c20Peers(p *Prog, r *Report) {
 		fatalf("anchor: listenAndServe not found")
 	}
 	s2 := newSim(p)
+	// (the serving phase may live in private helpers / methods of a helper object)
+	s2.Inline = func(f *ssa.Function) bool {
+		return f != connect && f.Parent() == nil && pkgOfFn(f) == pkgOfFn(las) && onlyCalledFrom(p, f, las, 3)
+	}
 	s2.Model = func(sm *Sim, st *State, call ssa.CallInstruction, callee *ssa.Function) []*State {
 		if callee == connect {
 			SetCallResult(st, call, AV{K: avNonNil})
